@@ -1060,3 +1060,507 @@ func ruleIteratorNotTypedNil(c *Ctx, rule string, pkgs ...string) {
 	c.CallSites(n)
 	c.Floor(rule, 1)
 }
+
+// ---- round 12 ----------------------------------------------------------------------------------------------
+
+// ruleTagOnlyNil: a stored value that consists of nothing but its type tag (the empty string) decodes to a nil
+// value.  The reference checks decide "no reference" by `key == nil` while the maintenance decides it by
+// len(value) > 0: an empty, non-nil slice would make the two disagree about a healthy entity.
+func ruleTagOnlyNil(c *Ctx, rule string) {
+	p := c.P
+	g := p.SSAFunc(p.Func("boltz", "GetTypeAndValue"))
+	c.Analysed(FnName(g))
+	fi := factsOf(g)
+	ok, why := true, ""
+	for _, r := range returnsOf(g) {
+		if len(r.Results) != 2 || isNilConst(r.Results[1]) {
+			continue
+		}
+		if !lenAtLeast(fi, r.Block(), ssa.Value(g.Params[0]), 2) {
+			ok = false
+			why = "a value is returned at " + p.Pos(r.Pos()) + " where the input is not known to hold more than its type tag: a tag-only payload (the empty string) decodes to an empty, non-nil slice, so `key == nil` no longer means 'no reference' — the integrity checks report (and, fixing, null) references of healthy entities"
+		}
+	}
+	c.Check(ok, rule, FnName(g), p.Pos(g.Pos()), "a non-nil value is returned only where the input is longer than its type tag", why)
+	c.Floor(rule, 1)
+}
+
+// ruleSeekFromArgument: where a cursor is sought to a value, the key handed to bbolt's Seek is made from the
+// argument of this very call (a key remembered in a field is the key of some earlier call).
+func ruleSeekFromArgument(c *Ctx, rule string) {
+	p := c.P
+	bseek := p.ExtMethod(bboltPath, "Cursor", "Seek")
+	n := 0
+	for _, fn := range c.prodFuncs("boltz") {
+		if fn.Parent() != nil || fn.Signature.Recv() == nil || len(fn.Params) != 2 || !strings.HasPrefix(fn.Name(), "Seek") {
+			continue
+		}
+		prm := fn.Params[1]
+		for _, call := range callsIn(fn) {
+			if !isCallTo(call, bseek) || len(call.Common().Args) != 2 {
+				continue
+			}
+			n++
+			c.Analysed(FnName(fn))
+			key := call.Common().Args[1]
+			c.Check(derivesFromParam(key, prm, 0), rule, FnName(fn)+": bbolt Seek", p.Pos(call.Pos()), "the key sought is made from this call's argument", "the key handed to bbolt's Seek ("+describeValue(key)+") is not made from this call's argument: a key kept from an earlier call is sought again, so a second predicate over the same set with another constant is decided on the first one's constant")
+		}
+	}
+	c.CallSites(n)
+	c.Floor(rule, 3)
+}
+
+// ruleSetWalkByValidity: a walk over a set cursor ends when the cursor says it is no longer valid.  The element
+// itself is no end marker: the empty string is an element whose value reads as nil.
+func ruleSetWalkByValidity(c *Ctx, rule string, pkgs ...string) {
+	p := c.P
+	n := 0
+	for _, fn := range c.prodFuncs(pkgs...) {
+		for _, l := range loopsOf(fn) {
+			// the cursor advanced in this loop
+			var cur ssa.Value
+			for b := range l.Blocks {
+				for _, in := range b.Instrs {
+					if call, ok := in.(ssa.CallInstruction); ok && call.Common().IsInvoke() && call.Common().Method.Name() == "Next" && isSetCursorIface(call.Common().Value.Type()) {
+						cur = call.Common().Value
+					}
+				}
+			}
+			if cur == nil {
+				continue
+			}
+			n++
+			c.Analysed(FnName(fn))
+			bad := ""
+			for b := range l.Blocks {
+				iff, isIf := b.Instrs[len(b.Instrs)-1].(*ssa.If)
+				if !isIf {
+					continue
+				}
+				leaves := false
+				for _, x := range b.Succs {
+					if !l.Blocks[x] {
+						leaves = true
+					}
+				}
+				if !leaves {
+					continue
+				}
+				// the condition that leaves the loop: a nil test of what Current() of that cursor answered
+				bo, isBo := iff.Cond.(*ssa.BinOp)
+				if !isBo || (bo.Op != token.EQL && bo.Op != token.NEQ) {
+					continue
+				}
+				for _, side := range []ssa.Value{bo.X, bo.Y} {
+					for i := 0; i < 3; i++ {
+						if phi, isPhi := side.(*ssa.Phi); isPhi && len(phi.Edges) > 0 {
+							side = phi.Edges[len(phi.Edges)-1]
+						}
+						if ex, isEx := side.(*ssa.Extract); isEx {
+							side = ex.Tuple
+						}
+					}
+					if k, isCall := side.(*ssa.Call); isCall && k.Call.IsInvoke() && ((k.Call.Method.Name() == "Current" && k.Call.Value == cur) || k.Call.Method.Name() == "Eval") {
+						other := bo.Y
+						if side == bo.Y {
+							other = bo.X
+						}
+						if isNilConst(other) {
+							bad = p.Pos(lastPos(b))
+						}
+					}
+				}
+			}
+			c.Check(bad == "", rule, FnName(fn)+": walk over "+describeValue(cur), p.Pos(fn.Pos()), "the walk over the set cursor is not ended by a nil element", "the walk over the set cursor ends where the element read is nil (at "+bad+") instead of where the cursor is no longer valid: the empty string is an element whose value reads as nil (and sorts first), so a set containing it is taken to have no elements at all")
+		}
+	}
+	c.CallSites(n)
+	c.Floor(rule, 2)
+}
+
+// ruleFoundLookedAt: a symbol table answers (what, found).  Where the first answer is used the second one is
+// looked at: the zero value of the first (type 0 is the bool type) is not "unknown".
+func ruleFoundLookedAt(c *Ctx, rule string) {
+	p := c.P
+	st := p.Iface("ast", "SymbolTypes")
+	n := 0
+	for _, fn := range c.prodFuncs("ast") {
+		for _, call := range callsIn(fn) {
+			cc := call.Common()
+			if !cc.IsInvoke() {
+				continue
+			}
+			sig, _ := cc.Method.Type().(*types.Signature)
+			if sig == nil || sig.Results().Len() != 2 || !types.Identical(sig.Results().At(1).Type(), types.Typ[types.Bool]) {
+				continue
+			}
+			if it, isI := cc.Value.Type().Underlying().(*types.Interface); !isI || st == nil || !types.Identical(it, st) {
+				continue
+			}
+			v, isV := call.(ssa.Value)
+			if !isV || v.Referrers() == nil {
+				continue
+			}
+			used0, used1 := false, false
+			for _, r := range *v.Referrers() {
+				ex, isEx := r.(*ssa.Extract)
+				if !isEx || ex.Referrers() == nil {
+					continue
+				}
+				live := false
+				for _, u := range *ex.Referrers() {
+					if _, dbg := u.(*ssa.DebugRef); !dbg {
+						live = true
+					}
+				}
+				if ex.Index == 0 && live {
+					used0 = true
+				}
+				if ex.Index == 1 && live {
+					used1 = true
+				}
+			}
+			if !used0 {
+				continue
+			}
+			n++
+			c.Analysed(FnName(fn))
+			c.Check(used1, rule, FnName(fn)+": "+describeInstr(call), p.Pos(call.Pos()), "the found answer is looked at where the value is used", "the value a symbol table answered is used without looking at its `found` answer: for an unknown name the value is the zero value (type 0 is the bool type), so a filter naming a symbol that does not exist is typed — and accepted — as if it were a bool symbol; the evaluator then dereferences a nil symbol")
+		}
+	}
+	c.CallSites(n)
+	c.Floor(rule, 2)
+}
+
+// ruleLiteralNotRecast: the value of a string literal is never parsed into another type: what was written in
+// quotes denotes that string, for every symbol it is compared with (an any-typed map entry holding "02134" is
+// compared with the string, not with the number 2134).
+func ruleLiteralNotRecast(c *Ctx, rule string) {
+	p := c.P
+	valFld := p.Field("ast", "StringConstNode", "value")
+	n, bad := 0, 0
+	for _, fn := range c.prodFuncs("ast") {
+		for _, call := range callsIn(fn) {
+			cal, _ := calleeOf(call.Common())
+			if cal == nil || cal.Pkg() == nil {
+				continue
+			}
+			isParse := (cal.Pkg().Path() == "strconv" && strings.HasPrefix(cal.Name(), "Parse")) || (cal.Pkg().Path() == "strconv" && cal.Name() == "Atoi") || (cal.Pkg().Path() == "time" && cal.Name() == "Parse")
+			if !isParse {
+				continue
+			}
+			n++
+			for _, a := range call.Common().Args {
+				v := a
+				for i := 0; i < 3; i++ {
+					if k, isCall := v.(*ssa.Call); isCall && len(k.Call.Args) > 0 {
+						v = k.Call.Args[0] // strings.ToLower(x), strings.TrimSpace(x)
+					}
+				}
+				if f, _ := loadedField(v); sameVar(f, valFld) {
+					bad++
+					c.Analysed(FnName(fn))
+					c.Check(false, rule, FnName(fn)+": "+describeInstr(call), p.Pos(call.Pos()), "", "the value of a string literal is parsed into another type ("+cal.Pkg().Name()+"."+cal.Name()+"): a quoted value then no longer denotes the string that was written — \"007\" and \"7\" become the same value, and a map entry holding the string \"02134\" no longer equals the literal \"02134\"")
+				}
+			}
+		}
+	}
+	if bad == 0 {
+		c.OK(rule, "ast: string literals", "-", "no string literal's value is parsed into another type")
+	}
+	c.CallSites(n)
+	c.Floor(rule, 1)
+}
+
+// ruleStaleElementPointer: a pointer to an element of a slice is not used after the slice has been appended to:
+// the append may have moved the elements, the pointer then writes into the old array (an index advanced through
+// it is lost — a tree walk visits a child twice).
+func ruleStaleElementPointer(c *Ctx, rule string, pkgs ...string) {
+	p := c.P
+	n := 0
+	for _, fn := range c.prodFuncs(pkgs...) {
+		if p.isGenerated(fn.Pos()) {
+			continue
+		}
+		for _, b := range fn.Blocks {
+			for _, in := range b.Instrs {
+				ia, ok := in.(*ssa.IndexAddr)
+				if !ok {
+					continue
+				}
+				if _, isSl := ia.X.Type().Underlying().(*types.Slice); !isSl || ia.Referrers() == nil {
+					continue
+				}
+				// an append to that very slice value
+				var apps []*ssa.Call
+				if refs := ia.X.Referrers(); refs != nil {
+					for _, r := range *refs {
+						if k, isCall := r.(*ssa.Call); isCall && len(k.Call.Args) > 0 && k.Call.Args[0] == ia.X {
+							if bi, isB := k.Call.Value.(*ssa.Builtin); isB && bi.Name() == "append" {
+								apps = append(apps, k)
+							}
+						}
+					}
+				}
+				if len(apps) == 0 {
+					continue
+				}
+				// writes through the element pointer
+				var writes []ssa.Instruction
+				var collect func(v ssa.Value, d int)
+				collect = func(v ssa.Value, d int) {
+					if v.Referrers() == nil || d > 2 {
+						return
+					}
+					for _, r := range *v.Referrers() {
+						switch u := r.(type) {
+						case *ssa.Store:
+							if u.Addr == v {
+								writes = append(writes, u)
+							}
+						case *ssa.FieldAddr:
+							collect(u, d+1)
+						}
+					}
+				}
+				collect(ia, 0)
+				if len(writes) == 0 {
+					continue
+				}
+				n++
+				c.Analysed(FnName(fn))
+				// x can run after a without the pointer having been taken anew in between (within one iteration)
+				after := func(a, x ssa.Instruction) bool {
+					if a.Block() == x.Block() {
+						return instrIndex(a) < instrIndex(x)
+					}
+					seen := map[*ssa.BasicBlock]bool{}
+					work := append([]*ssa.BasicBlock{}, a.Block().Succs...)
+					for len(work) > 0 {
+						y := work[len(work)-1]
+						work = work[:len(work)-1]
+						if seen[y] {
+							continue
+						}
+						seen[y] = true
+						if y == x.Block() {
+							return true
+						}
+						if y == ia.Block() {
+							continue // a new iteration takes the pointer again
+						}
+						work = append(work, y.Succs...)
+					}
+					return false
+				}
+				bad := ""
+				for _, app := range apps {
+					if !after(ia, app) {
+						continue
+					}
+					for _, w := range writes {
+						if after(app, w) {
+							bad = "the element pointer taken at " + p.Pos(ia.Pos()) + " is written through at " + p.Pos(w.Pos()) + " after the slice was appended to at " + p.Pos(app.Pos())
+						}
+					}
+				}
+				c.Check(bad == "", rule, FnName(fn)+": pointer into "+describeValue(ia.X), p.Pos(ia.Pos()), "the element pointer is not written through after an append to the slice", bad+": when the append has to grow the slice the pointer addresses the old array, the write is lost (a cursor or index kept there does not advance: the same subtree is walked, or the same row handled, twice)")
+			}
+		}
+	}
+	c.CallSites(n)
+}
+
+// ruleEmptyContainerWritten: writing a map or a list creates its bucket, however many entries it has: the enclosing
+// readers find their entries by what exists (a nested empty map with no bucket is no entry at all).
+func ruleEmptyContainerWritten(c *Ctx, rule string) {
+	p := c.P
+	tb := p.Named("boltz", "TypedBucket")
+	n := 0
+	for _, fn := range c.prodFuncs("boltz") {
+		if fn.Parent() != nil || fn.Signature.Recv() == nil || namedOf(fn.Signature.Recv().Type()) != tb {
+			continue
+		}
+		writesEntries := false
+		for _, call := range callsIn(fn) {
+			if cal, _ := calleeOf(call.Common()); cal != nil && cal.Name() == "setMarshaled" {
+				writesEntries = true
+			}
+		}
+		if !writesEntries || !(strings.HasPrefix(fn.Name(), "Put")) {
+			continue
+		}
+		n++
+		c.Analysed(FnName(fn))
+		fi := factsOf(fn)
+		makes := func(in ssa.Instruction) bool {
+			ci, ok := in.(ssa.CallInstruction)
+			if !ok {
+				return false
+			}
+			cal, _ := calleeOf(ci.Common())
+			if cal == nil {
+				return false
+			}
+			switch cal.Name() {
+			case "EmptyBucket", "CreateBucket", "CreateBucketIfNotExists", "GetOrCreateBucket", "GetOrCreatePath":
+				return true
+			}
+			return false
+		}
+		ok := noPathAvoiding(fn, makes, func(from, to *ssa.BasicBlock) bool {
+			for f := range fi.edgeFacts(from, to) {
+				if k, isCall := f.V.(*ssa.Call); isCall && f.Kind == "true" && !f.Pol {
+					if cal, _ := calleeOf(k.Common()); cal != nil && cal.Name() == "ProceedWithSet" {
+						return true
+					}
+				}
+			}
+			return false
+		})
+		c.Check(ok, rule, FnName(fn), p.Pos(fn.Pos()), "every path on which the write proceeds makes the container's bucket", "the container write can proceed without making the container's bucket (for an empty container, say): a nested empty map or list then does not exist for the enclosing reader — {\"k\": {}} reads back as {} and [{}, \"a\"] as [nil, \"a\"]")
+	}
+	c.CallSites(n)
+	c.Floor(rule, 2)
+}
+
+// ruleUpdateRunsHooks: an update that is not handed to a child store runs the before-update hooks on every path
+// to success: they are where the constraints veto (the system-entity check).  A "nothing changed" shortcut around
+// them lets an ordinary context "update" a system entity without being refused.
+func ruleUpdateRunsHooks(c *Ctx, rule string) {
+	p := c.P
+	fn := p.SSAFunc(p.Method("boltz", "BaseStore", "Update"))
+	c.Analysed(FnName(fn))
+	fi := factsOf(fn)
+	isHook := func(in ssa.Instruction) bool { return invokeNamed(in, "ProcessBeforeUpdate") }
+	handled := func(from, to *ssa.BasicBlock) bool {
+		for f := range fi.edgeFacts(from, to) {
+			if f.Kind != "true" || !f.Pol {
+				continue
+			}
+			v := f.V
+			if ex, isEx := v.(*ssa.Extract); isEx {
+				v = ex.Tuple
+			}
+			if k, isCall := v.(*ssa.Call); isCall && invokeNamed(k, "HandleUpdate") {
+				return true
+			}
+		}
+		return false
+	}
+	ok := noPathAvoidingSuccess(fn, fi, isHook, handled)
+	c.Check(ok, rule, FnName(fn), p.Pos(fn.Pos()), "every successful path that is not handed to a child store runs ProcessBeforeUpdate", "Update can report success without having run the before-update hooks (a shortcut for 'nothing changed', say): the constraints that veto there — the system-entity check — are skipped, so an ordinary context's update of a system entity is accepted")
+	c.Floor(rule, 1)
+}
+
+// ruleFilterOnItsStore: a filter built over the symbols of a store (NewSymbolEqualsStringQuery(S, name, id)) is
+// evaluated on that store S.  The referrer filter of the delete constraints names a field of the REFERRING
+// entities: run on the store of the entity being deleted it matches nothing, and the delete is not refused.
+func ruleFilterOnItsStore(c *Ctx, rule string) {
+	p := c.P
+	n := 0
+	strip := func(v ssa.Value) ssa.Value {
+		for i := 0; i < 4; i++ {
+			switch x := v.(type) {
+			case *ssa.MakeInterface:
+				v = x.X
+			case *ssa.ChangeInterface:
+				v = x.X
+			case *ssa.Extract:
+				v = x.Tuple
+			default:
+				return v
+			}
+		}
+		return v
+	}
+	sameStore := func(a, b ssa.Value) bool {
+		a, b = strip(a), strip(b)
+		if a == b {
+			return true
+		}
+		ka, okA := a.(*ssa.Call)
+		kb, okB := b.(*ssa.Call)
+		if !okA || !okB || !ka.Call.IsInvoke() || !kb.Call.IsInvoke() {
+			return false
+		}
+		return ka.Call.Method.Name() == kb.Call.Method.Name() && sameSource(ka.Call.Value, kb.Call.Value)
+	}
+	for _, fn := range c.prodFuncs("boltz") {
+		for _, call := range callsIn(fn) {
+			cc := call.Common()
+			if !cc.IsInvoke() {
+				continue
+			}
+			switch cc.Method.Name() {
+			case "IterateValidIds", "IterateIds", "QueryIdsC", "QueryWithCursorC":
+			default:
+				continue
+			}
+			// the filter argument: made by the equality-query constructor in this function
+			var mk *ssa.Call
+			for _, a := range cc.Args {
+				if k, isCall := strip(a).(*ssa.Call); isCall {
+					if cal, _ := calleeOf(&k.Call); cal != nil && cal.Name() == "NewSymbolEqualsStringQuery" && len(k.Call.Args) >= 1 {
+						mk = k
+					}
+				}
+			}
+			if mk == nil {
+				continue
+			}
+			n++
+			c.Analysed(FnName(fn))
+			c.Check(sameStore(cc.Value, mk.Call.Args[0]), rule, FnName(fn)+": "+describeInstr(call), p.Pos(call.Pos()), "the filter is evaluated on the store whose symbols it was built over", "the filter was built over the symbols of one store ("+describeValue(strip(mk.Call.Args[0]))+") and is evaluated on another ("+describeValue(cc.Value)+"): there the field it names does not resolve, nothing matches, and a delete that must be refused (or cascaded) because referrers exist goes through")
+		}
+	}
+	c.CallSites(n)
+	c.Floor(rule, 1)
+}
+
+// ruleFkPresenceAsked: a foreign-key constraint that accepts a non-empty reference has asked the referenced
+// store, in this very call, whether the target exists.  An answer remembered from earlier (a "verified targets"
+// cache) is an answer about an earlier state: the target may have been deleted since.
+func ruleFkPresenceAsked(c *Ctx, rule string) {
+	p := c.P
+	n := 0
+	for _, fn := range c.prodFuncs("boltz") {
+		if fn.Parent() != nil || fn.Name() != "ProcessAfterUpdate" || fn.Signature.Recv() == nil {
+			continue
+		}
+		rn := namedOf(fn.Signature.Recv().Type())
+		if rn == nil || rn.Obj().Name() != "fkConstraint" {
+			continue
+		}
+		fi := factsOf(fn)
+		for _, b := range fn.Blocks {
+			for _, to := range b.Succs {
+				nonEmpty := false
+				for f := range fi.edgeFacts(b, to) {
+					bo, isB := f.V.(*ssa.BinOp)
+					if !isB || f.Kind != "true" {
+						continue
+					}
+					if lx := lenOf(bo.X); lx != nil {
+						if k, isK := intConst(bo.Y); isK && k == 0 && ((bo.Op == token.GTR && f.Pol) || (bo.Op == token.NEQ && f.Pol) || (bo.Op == token.EQL && !f.Pol) || (bo.Op == token.LEQ && !f.Pol)) {
+							if sl, isSl := lx.Type().Underlying().(*types.Slice); isSl && types.Identical(sl.Elem(), types.Typ[types.Byte]) {
+								nonEmpty = true
+							}
+						}
+					}
+				}
+				if !nonEmpty {
+					continue
+				}
+				n++
+				c.Analysed(FnName(fn))
+				asks := func(in ssa.Instruction) bool { return invokeNamed(in, "IsEntityPresent") }
+				ps := &pathSearch{fn: fn, fi: fi, start: to, startKnow: stepKnow(fi, b, to, knowMap{}), stop: asks}
+				ps.atReturn = func(*ssa.Return, knowMap) bool { return true }
+				c.Check(!ps.run(), rule, FnName(fn)+": non-empty reference", p.Pos(lastPos(b)), "every path on which a non-empty reference is handled asks the referenced store whether the target exists", "a non-empty reference can be accepted without the referenced store having been asked in this call (an answer remembered from an earlier call is used): a target that was deleted since — in the same transaction, or in an earlier one when the context object is reused — is taken to exist, and the dangling reference is committed")
+			}
+		}
+	}
+	c.CallSites(n)
+	c.Floor(rule, 1)
+}
